@@ -655,8 +655,11 @@ def native_confirm(w, env, events, from_entry):
     import subprocess, itertools
     exe = replay_m.build('debug')
     fees = [(fee_rate, pfr)] + [x for x in ((3000, 300), (60000, 2500), (1, 1)) if x != (fee_rate, pfr)]
-    combos = [(f, L, sp, lm, a) for f in fees for L in liqs for sp in prices for lm in limits for a in amts
-              if not (lm and ((w.a_to_b and lm >= sp) or (not w.a_to_b and lm <= sp)))]
+    if w.limit_mode != 'none':
+        # also limits on the WRONG side of / equal to the current price (the real swap must reject them) and the model's own limit
+        ml = g('limit', None)
+        limits = ([ml] if ml else []) + [pc_ + 1, (pc_ + pn_) // 2 - 1, pn_ - 1] + limits
+    combos = [(f, L, sp, lm, a) for f in fees for L in liqs for sp in prices for lm in limits for a in amts]
     for (fr_, pf_), L, sp, lm, a in combos[:600]:
         args = [sp, tc, L, spacing, fr_, pf_, g('fgg_a', 0), g('fgg_b', 0), a, lm, 1 if w.exact_in else 0, 1 if w.a_to_b else 0, 0] + \
                [f'{t}:{n}' for t, n in sorted(ticks.items())]
@@ -680,6 +683,8 @@ def check_real(w, real, st, amount, limit, ticks):
     used = inp if w.exact_in else out
     if used > amount: return 'P1: more than the specified amount'
     nsp = real['next_sqrt_price']
+    if limit and ((w.a_to_b and limit > st['sqrt_price']) or (not w.a_to_b and limit < st['sqrt_price'])):
+        return 'E1: a price limit on the wrong side of the current price was accepted'
     if w.a_to_b and not (lim <= nsp <= st['sqrt_price']): return 'P2: price beyond limit / wrong direction'
     if not w.a_to_b and not (st['sqrt_price'] <= nsp <= lim): return 'P2: price beyond limit / wrong direction'
     if used < amount and nsp != lim: return 'P3: partial fill away from the limit'
